@@ -38,3 +38,4 @@ def run(ctx, rep):
     rep.run(RF.rule_lookup_validated, ctx, rep, "V6")
     rep.run(RG.rule_free_text_bounded, ctx, rep, "V7")
     rep.require_min("V6", 4)
+    rep.run(RF.rule_locals_defined, ctx, rep, "U1", packages=("gtwrap/interface_parser", "scripts/"), min_functions=3)
